@@ -9,15 +9,15 @@ From Cctp Require Import Spec.WriteDoc.
 (* ---------- lexing ---------- *)
 Fixpoint split_on (c : byte) (s : bytes) (cur : bytes) : list bytes :=
   match s with
-  | [] => [rev cur]
-  | b :: r => if byte_eqb b c then rev cur :: split_on c r [] else split_on c r (b :: cur)
+  | [] => [rev_append cur []]
+  | b :: r => if byte_eqb b c then rev_append cur [] :: split_on c r [] else split_on c r (b :: cur)
   end.
 Definition words (s : bytes) : list bytes := filter (fun w => negb (Nat.eqb (length w) 0)) (split_on x20 s []).
 
 Fixpoint split_kv (s : bytes) (cur : bytes) : bytes * bytes :=
   match s with
-  | [] => (rev cur, [])
-  | b :: r => if byte_eqb b x3d then (rev cur, r) else split_kv r (b :: cur)
+  | [] => (rev_append cur [], [])
+  | b :: r => if byte_eqb b x3d then (rev_append cur [], r) else split_kv r (b :: cur)
   end.
 Definition kvs (ws : list bytes) : list (bytes * bytes) := map (fun w => split_kv w []) ws.
 
